@@ -406,6 +406,283 @@ theorem busy_can_finish (rf : Bool) (s : State) (c r : Nat) (ru : Bool) (h : s.c
     ∃ s', step rf s (.finish c) = some s' ∧ r ∈ s'.resulted := by
   simp [step, h, setSt]
 
+
+/-! ## Termination: every request is answered after finitely many steps of the pool -/
+
+/-- weights of the termination measure (a busy client also carries its unanswered request) -/
+def wt : CSt → Nat
+  | .ready false => 3
+  | .ready true => 7
+  | .idle false => 2
+  | .idle true => 6
+  | .busy _ false => 25
+  | .busy _ true => 35
+  | .exiting => 1
+
+/-- the last client is on its way out while a request waits: the link callback will respawn one -/
+def respawnDue (s : State) : Bool := !s.queue.isEmpty && !s.clients.isEmpty && s.clients.all CSt.isExiting
+
+def mu (s : State) : Nat := 30 * s.queue.length + sumW wt s.clients + (if respawnDue s then 3 else 0)
+
+/-- the steps the pool takes by itself or that answer / give back a request: no new attempt, no idle
+    timer, no connection fault between two messages -/
+def Label.progress : Label → Bool
+  | .poll _ | .wake _ | .finish _ | .fail _ | .requeue _ | .unlink _ => true
+  | _ => false
+
+theorem respawnDue_le (s : State) : (if respawnDue s then 3 else 0) ≤ 3 := by split <;> omega
+
+theorem respawnDue_false_of_client {s : State} {c : Nat} {st : CSt} (h : s.clients[c]? = some st) (hst : st.isExiting = false) :
+    respawnDue s = false := by
+  simp [respawnDue, all_false_of_getElem h hst]
+
+theorem mu_eq_of_flag_false {s : State} (h : respawnDue s = false) : mu s = 30 * s.queue.length + sumW wt s.clients := by
+  simp [mu, h]
+
+theorem mu_le (s : State) : mu s ≤ 30 * s.queue.length + sumW wt s.clients + 3 := by
+  unfold mu; split <;> omega
+
+theorem mu_ge (s : State) : 30 * s.queue.length + sumW wt s.clients ≤ mu s := by
+  unfold mu; omega
+
+theorem mu_set_nonexiting (s : State) (q res : List Nat) (c : Nat) (st : CSt) (hc : c < s.clients.length)
+    (hst : st.isExiting = false) :
+    mu (setSt { s with queue := q, resulted := res } c st) = 30 * q.length + sumW wt (s.clients.set c st) := by
+  have : respawnDue (setSt { s with queue := q, resulted := res } c st) = false := by
+    simp [respawnDue, setSt, all_set_false hc hst]
+  rw [mu_eq_of_flag_false this]; rfl
+
+theorem mu_set_le (s : State) (q res : List Nat) (c : Nat) (st : CSt) :
+    mu (setSt { s with queue := q, resulted := res } c st) ≤ 30 * q.length + sumW wt (s.clients.set c st) + 3 :=
+  mu_le _
+
+/-- **Every progress step strictly decreases the measure** (a fresh connection never puts its
+    request back: `requeueFresh = false`, the repaired code). -/
+theorem measure_decreases (s s' : State) (l : Label) (hl : Label.progress l = true) (hs : step false s l = some s') :
+    mu s' < mu s := by
+  cases l with
+  | attempt r => simp [Label.progress] at hl
+  | expire c => simp [Label.progress] at hl
+  | drop c => simp [Label.progress] at hl
+  | poll c =>
+    simp only [step] at hs
+    split at hs
+    · rename_i ru hget
+      have hlt := lt_of_getElem? hget
+      have hb := mu_eq_of_flag_false (respawnDue_false_of_client hget (st := .ready ru) rfl)
+      split at hs
+      · rename_i r q hq
+        simp only [Option.some.injEq] at hs; subst hs
+        have hw := sumW_set wt (st := .busy r ru) hget
+        have ha := mu_set_nonexiting s q s.resulted c (.busy r ru) hlt rfl
+        have ha' : mu (setSt { s with queue := q } c (.busy r ru)) = 30 * q.length + sumW wt (s.clients.set c (.busy r ru)) := ha
+        rw [ha', hb, hq]
+        simp only [List.length_cons]
+        cases ru <;> simp [wt] at hw ⊢ <;> omega
+      · rename_i hq
+        simp only [Option.some.injEq] at hs; subst hs
+        have hw := sumW_set wt (st := .idle ru) hget
+        have ha := mu_set_nonexiting s s.queue s.resulted c (.idle ru) hlt rfl
+        have ha' : mu (setSt s c (.idle ru)) = 30 * s.queue.length + sumW wt (s.clients.set c (.idle ru)) := ha
+        rw [ha', hb]
+        cases ru <;> simp [wt] at hw ⊢ <;> omega
+    · simp at hs
+  | wake c =>
+    simp only [step] at hs
+    split at hs
+    · rename_i ru r q hget hq
+      have hlt := lt_of_getElem? hget
+      have hb := mu_eq_of_flag_false (respawnDue_false_of_client hget (st := .idle ru) rfl)
+      simp only [Option.some.injEq] at hs; subst hs
+      have hw := sumW_set wt (st := .busy r ru) hget
+      have ha := mu_set_nonexiting s q s.resulted c (.busy r ru) hlt rfl
+      have ha' : mu (setSt { s with queue := q } c (.busy r ru)) = 30 * q.length + sumW wt (s.clients.set c (.busy r ru)) := ha
+      rw [ha', hb, hq]
+      simp only [List.length_cons]
+      cases ru <;> simp [wt] at hw ⊢ <;> omega
+    · simp at hs
+  | finish c =>
+    simp only [step] at hs
+    split at hs
+    · rename_i r ru hget
+      have hb := mu_eq_of_flag_false (respawnDue_false_of_client hget (st := .busy r ru) rfl)
+      simp only [Option.some.injEq] at hs; subst hs
+      have hw := sumW_set wt (st := if s.reuse then .ready true else .exiting) hget
+      have hle := mu_set_le s s.queue (r :: s.resulted) c (if s.reuse then .ready true else .exiting)
+      have hle' : mu (setSt { s with resulted := r :: s.resulted } c (if s.reuse then .ready true else .exiting)) ≤
+          30 * s.queue.length + sumW wt (s.clients.set c (if s.reuse then .ready true else .exiting)) + 3 := hle
+      rw [hb]
+      cases ru <;> cases hr : s.reuse <;> simp [wt, hr] at hw hle' ⊢ <;> omega
+    · simp at hs
+  | fail c =>
+    simp only [step] at hs
+    split at hs
+    · rename_i r ru hget
+      have hb := mu_eq_of_flag_false (respawnDue_false_of_client hget (st := .busy r ru) rfl)
+      simp only [Option.some.injEq] at hs; subst hs
+      have hw := sumW_set wt (st := .exiting) hget
+      have hle := mu_set_le s s.queue (r :: s.resulted) c .exiting
+      have hle' : mu (setSt { s with resulted := r :: s.resulted } c .exiting) ≤
+          30 * s.queue.length + sumW wt (s.clients.set c .exiting) + 3 := hle
+      rw [hb]
+      cases ru <;> simp [wt] at hw hle' ⊢ <;> omega
+    · simp at hs
+  | requeue c =>
+    simp only [step] at hs
+    split at hs
+    · rename_i r ru hget
+      have hb := mu_eq_of_flag_false (respawnDue_false_of_client hget (st := .busy r ru) rfl)
+      split at hs
+      · rename_i hru
+        simp only [Bool.or_false] at hru
+        subst hru
+        simp only [Option.some.injEq] at hs; subst hs
+        have hw := sumW_set wt (st := .exiting) hget
+        have hle := mu_set_le s (r :: s.queue) s.resulted c .exiting
+        have hle' : mu (setSt { s with queue := r :: s.queue } c .exiting) ≤
+            30 * (r :: s.queue).length + sumW wt (s.clients.set c .exiting) + 3 := hle
+        rw [hb]
+        simp only [List.length_cons] at hle'
+        simp [wt] at hw hle' ⊢
+        omega
+      · simp at hs
+    · simp at hs
+  | unlink c =>
+    simp only [step] at hs
+    split at hs
+    · rename_i hget
+      have hlt := lt_of_getElem? hget
+      have hw := sumW_eraseIdx wt hget
+      have hx : wt CSt.exiting = 1 := rfl
+      simp only [Option.some.injEq] at hs
+      subst hs
+      split
+      · -- respawn: it was the last client and a request waits
+        rename_i hre
+        simp only [Bool.and_eq_true, Bool.not_eq_true', List.isEmpty_iff] at hre
+        obtain ⟨hq, he⟩ := hre
+        have he' : s.clients.eraseIdx c = [] := he
+        have hone : s.clients = [.exiting] := by
+          cases hcl : s.clients with
+          | nil => simp [hcl] at hlt
+          | cons y ys =>
+            rw [hcl] at he' hget
+            cases c with
+            | zero =>
+              simp at he' hget; subst he' hget; rfl
+            | succ j => simp at he'
+        have hqne : s.queue.isEmpty = false := by
+          cases hqq : s.queue with
+          | nil => simp [hqq] at hq
+          | cons _ _ => rfl
+        have hbefore : mu s = 30 * s.queue.length + 1 + 3 := by
+          simp [mu, respawnDue, hone, CSt.isExiting, hqne, sumW, wt]
+        have hafter : mu (addClient { s with clients := s.clients.eraseIdx c }) = 30 * s.queue.length + 3 := by
+          simp [mu, respawnDue, addClient, he', CSt.isExiting, sumW, wt]
+        rw [hbefore, hafter]; omega
+      · rename_i hre
+        -- no respawn: the flag is unchanged or off
+        have hflag : respawnDue { s with clients := s.clients.eraseIdx c } = respawnDue s ∨
+            (respawnDue { s with clients := s.clients.eraseIdx c } = false) := by
+          by_cases hq : s.queue.isEmpty = true
+          · right; simp [respawnDue, hq]
+          · by_cases he : (s.clients.eraseIdx c).isEmpty = true
+            · exfalso; apply hre
+              simp only [Bool.and_eq_true, Bool.not_eq_true']
+              exact ⟨by simpa using hq, he⟩
+            · left
+              have hne : s.clients.isEmpty = false := by
+                cases hcl : s.clients with
+                | nil => simp [hcl] at hlt
+                | cons _ _ => rfl
+              have hall : ∀ (cl : List CSt) (c : Nat), cl[c]? = some CSt.exiting →
+                  (cl.eraseIdx c).all CSt.isExiting = cl.all CSt.isExiting := by
+                intro cl
+                induction cl with
+                | nil => intro c h; simp at h
+                | cons y ys ih =>
+                  intro c h
+                  cases c with
+                  | zero => simp at h; subst h; simp [CSt.isExiting]
+                  | succ j =>
+                    simp at h
+                    simp only [List.eraseIdx_cons_succ, List.all_cons, ih j h]
+              have he2 : (s.clients.eraseIdx c).isEmpty = false := by simpa using he
+              simp only [respawnDue, hall s.clients c hget, hne, he2]
+        have hmu1 : mu { s with clients := s.clients.eraseIdx c } =
+            30 * s.queue.length + sumW wt (s.clients.eraseIdx c) + (if respawnDue { s with clients := s.clients.eraseIdx c } then 3 else 0) := rfl
+        rw [hmu1]
+        rcases hflag with hf | hf
+        · rw [hf]; unfold mu; omega
+        · rw [hf]
+          have := mu_ge s
+          simp only [Bool.false_eq_true, if_false]
+          omega
+    · simp at hs
+
+/-- A run of progress steps from `s`. -/
+def runProgress (s : State) : List Label → Option State
+  | [] => some s
+  | l :: ls => if Label.progress l then
+      match step false s l with
+      | some s' => runProgress s' ls
+      | none => none
+    else none
+
+/-- **Termination**: without new attempts, idle timers and connection faults, the pool takes at
+    most `mu s` steps — every schedule of the pool's own steps is finite. -/
+theorem progress_runs_are_bounded (s s' : State) (ls : List Label) (h : runProgress s ls = some s') :
+    ls.length + mu s' ≤ mu s := by
+  induction ls generalizing s with
+  | nil => simp [runProgress] at h; subst h; simp
+  | cons l ls ih =>
+    simp only [runProgress] at h
+    split at h
+    · rename_i hl
+      split at h
+      · rename_i s1 hs1
+        have := ih s1 h
+        have hd := measure_decreases s s1 l hl hs1
+        simp only [List.length_cons]; omega
+      · simp at h
+    · simp at h
+
+/-- **… and when it stops, everything is answered**: in a reachable state in which none of the pool's
+    own steps is enabled, no request waits and no client holds one — by `request_in_one_place` every
+    request ever attempted has its result. -/
+theorem stuck_means_all_answered (size : Nat) (reuse pers : Bool) (ls : List Label) (s : State)
+    (hr : run false (init size reuse pers) ls = some s)
+    (hstuck : ∀ l, Label.internal l = true → step false s l = none) :
+    s.queue = [] ∧ (∀ r, held r s.clients = 0) ∧ ∀ r ∈ s.attempted, r ∈ s.resulted := by
+  have hq : s.queue = [] := by
+    cases hqq : s.queue with
+    | nil => rfl
+    | cons a b =>
+      obtain ⟨l, hl, hen⟩ := no_stranding false size reuse pers ls s hr (by rw [hqq]; simp)
+      rw [hstuck l hl] at hen; simp at hen
+  have hb : ∀ r, held r s.clients = 0 := by
+    intro r
+    cases hh : held r s.clients with
+    | zero => rfl
+    | succ n =>
+      exfalso
+      have hpos : 0 < s.clients.countP (CSt.holds r) := by unfold held at hh; omega
+      obtain ⟨st, hm, hst⟩ := List.countP_pos_iff.mp hpos
+      obtain ⟨c, hc, hget⟩ := List.mem_iff_getElem.mp hm
+      cases st with
+      | busy r' ru =>
+        have hg : s.clients[c]? = some (.busy r' ru) := by rw [List.getElem?_eq_getElem hc, hget]
+        obtain ⟨s2, hs2, _⟩ := busy_can_finish false s c r' ru hg
+        rw [hstuck (.finish c) rfl] at hs2; simp at hs2
+      | ready _ => simp [CSt.holds] at hst
+      | idle _ => simp [CSt.holds] at hst
+      | exiting => simp [CSt.holds] at hst
+  refine ⟨hq, hb, fun r hr' => ?_⟩
+  have h1 := request_in_one_place false size reuse pers ls s hr r hr'
+  rw [hq, hb r] at h1
+  simp at h1
+  exact List.count_pos_iff.mp (by omega)
+
 /-! Non-vacuity: a run that exercises bound, respawn and re-queue. -/
 example : (run true (init 1 true) [.attempt 1, .attempt 2, .poll 0, .finish 0, .poll 0, .requeue 0, .unlink 0]).map
     (fun s => (s.clients, s.queue, s.resulted)) = some ([.ready false], [2], [1]) := by decide
